@@ -163,19 +163,20 @@ Definition case_of_value (v : str) : option name_case :=
 Definition all_decimal (s : str) : bool := forallb py_isdecimal s.
 Definition strip_final_newline (s : str) : str :=
   match rev s with 10 :: r => rev r | _ => s end.
+(* body of the number after the "-":  \d* \.? \d+  *)
+Definition minus_body_ok (body : str) : bool :=
+  let '(a, b) := span py_isdecimal body in
+  match b with
+  | [] => negb (match a with [] => true | _ => false end)
+  | 46 :: f => negb (match f with [] => true | _ => false end) && all_decimal f
+  | _ => false
+  end.
+
 Definition minus_number (name : str) : bool :=
   match name with
   | 45 :: body0 =>
-      (* `$` also matches just before a final newline; both readings are tried by the
-         regex engine: with and without the newline stripped *)
-      let ok (body : str) :=
-        let '(a, b) := span py_isdecimal body in
-        match b with
-        | [] => negb (match a with [] => true | _ => false end)
-        | 46 :: f => negb (match f with [] => true | _ => false end) && all_decimal f
-        | _ => false
-        end in
-      ok body0 || ok (strip_final_newline body0)
+      (* `$` also matches just before a final newline: both readings are tried *)
+      minus_body_ok body0 || minus_body_ok (strip_final_newline body0)
   | _ => false
   end.
 
